@@ -10,7 +10,7 @@ ID = "C26"
 ENGINE = "B"
 TECHNIQUE = "cycle driver + ordered-list reference model"
 RULE = (
-    "case = (entries 1..8 (thorough ..11), history of per-cycle request vectors alloc / free(selector into the "
+    "case = (entries 1..8 (thorough ..11), one case in four 9..20 (thorough ..34), history of per-cycle request vectors alloc / free(selector into the "
     "allocated identifiers) / free_idx(selector below the used count) / order / clear); model = python list of the "
     "allocated identifiers oldest->newest stepped with the observed accepted set, `order` compared in every cycle in "
     "which it is requested (most cycles); non-trivial = some cycle accepted alloc together with free/free_idx of a "
@@ -50,7 +50,10 @@ def budget(tier):
 def strategy(draw, tier="quick"):
     emax = 8 if tier == "quick" else 11
     # small sizes stay in (entries 1 and 2 have degenerate shift logic) but most cases can hold a middle element
-    entries = draw(st.one_of(st.integers(1, emax), st.integers(3, emax)))
+    # the component imposes no upper limit: one case in four is larger than one 8-entry bank (sizes just above 8 and
+    # above 16 exercise wide position searches; freeing an identifier at a position >= 8 needs >= 9 allocated)
+    big = st.integers(9, 20 if tier == "quick" else 34)
+    entries = draw(st.one_of(st.integers(1, emax), st.integers(3, emax), st.integers(3, emax), big))
     hi = 60 if tier == "quick" else 180
     # raw integers: free [selector], free_idx [selector, mode], clear [thinning]
     methods = {"alloc": [], "free": [256], "free_idx": [256, 4], "clear": [10]}
